@@ -60,10 +60,15 @@ def run(scn, sb):
         Xb = model.log2cpm(W.q_X)
         b['normalization'] = 'log2CPM'
     elif rel == 'scale_pow2':
-        Xb = W.q_X * (2.0 ** r.integers(-3, 6, size=(W.q_X.shape[0], 1)))
+        # any positive constant: from totals far below one count to very large ones
+        lo, hi = (-3, 6) if r.random() < 0.4 else (-40, 40)
+        Xb = W.q_X * (2.0 ** r.integers(lo, hi, size=(W.q_X.shape[0], 1)))
         exact = True
     elif rel == 'scale_any':
-        Xb = W.q_X * r.uniform(0.3, 17.0, size=(W.q_X.shape[0], 1))
+        if r.random() < 0.4:
+            Xb = W.q_X * r.uniform(0.3, 17.0, size=(W.q_X.shape[0], 1))
+        else:
+            Xb = W.q_X * (10.0 ** r.uniform(-9.0, 9.0, size=(W.q_X.shape[0], 1)))
     elif rel == 'gene_perm':
         p = r.permutation(len(ga))
         if r.random() < 0.5:
